@@ -94,9 +94,10 @@ namespace sqf::runtime
 #pragma region Runtime state handling
 
     private:
-        bool m_is_halt_requested;
-        bool m_is_exit_requested;
-        state m_state;
+        // Written by a controlling thread (stop/abort) while another thread executes: plain fields would be a data race
+        std::atomic<bool> m_is_halt_requested;
+        std::atomic<bool> m_is_exit_requested;
+        std::atomic<state> m_state;
         int m_exit_code;
         std::atomic<bool> m_run_atomic;
 
